@@ -631,7 +631,7 @@ Proof.
     destruct (Z.lt_ge_cases x (psize p + diff)); [|left; lia].
     right. destruct (Z.eqb_spec diff 0); [lia|].
     pose proof (inv_size _ I).
-    destruct (add_gap_spec (gaps p) (psize p) diff ltac:(lia) ltac:(lia) (inv_lg _ I)) as (new & P & _ & _ & _ & _ & CV).
+    destruct (add_gap_spec (gaps p) (psize p) diff ltac:(lia) ltac:(lia) (inv_lg _ I)) as (new & P & _ & _ & _ & _ & CV & _).
     destruct (CV x ltac:(lia)) as (g & Hg' & Cg).
     assert (In g (concat (add_gap (gaps p) (psize p) diff))).
     { apply (Permutation_in _ (Permutation_sym P)). apply in_or_app. left; auto. }
